@@ -4373,3 +4373,365 @@ func E11OmittedTerm(c *core.Ctx, r *core.Report) {
 	r.Count("E11.tosvg-terms", n)
 	r.Floor("E11.tosvg-terms", 4)
 }
+
+// E11StaleAfterBreak: a value computed for a candidate element is not used after the loop when the loop can drop the candidate.
+func E11StaleAfterBreak(c *core.Ctx, r *core.Report) {
+	r.Rule("E11.stale-after-break", "text.go: a loop that builds a candidate element, may `break` before committing it (`S = append(S, candidate)`) and computes per-candidate values before that break must not leave those values in variables that are read after the loop: after the break they describe the dropped candidate, not the last committed element. RichText.ToText measures a line, drops it if it does not fit the box height and afterwards removes the last line's gap — that must be the last kept line's (read from t.lines), or Bottom/Center/Justify alignment is off by the difference between the dropped and the last kept line. Every loop of the file with a break between an assignment and a commit is examined")
+	p := c.MustPkg("")
+	info := p.TypesInfo
+	n := 0
+	for _, fd := range core.AllFuncDecls(p) {
+		if fd.Body == nil || !strings.HasSuffix(c.Fset.Position(fd.Pos()).Filename, "/text.go") {
+			continue
+		}
+		fname := "canvas." + core.FuncName(fd)
+		ord := 0
+		ast.Inspect(fd.Body, func(m ast.Node) bool {
+			var body *ast.BlockStmt
+			switch x := m.(type) {
+			case *ast.ForStmt:
+				body = x.Body
+			case *ast.RangeStmt:
+				body = x.Body
+			default:
+				return true
+			}
+			loop := m
+			outside := func(o types.Object) bool {
+				if o == nil || o.Pos() >= loop.Pos() && o.Pos() < loop.End() {
+					return false
+				}
+				v, ok := o.(*types.Var)
+				return ok && !v.IsField() && v.Parent() != p.Types.Scope()
+			}
+			// breaks that leave this loop
+			var breaks []token.Pos
+			var walk func(n ast.Node, inner bool)
+			walk = func(n ast.Node, inner bool) {
+				ast.Inspect(n, func(k ast.Node) bool {
+					switch y := k.(type) {
+					case *ast.FuncLit:
+						return false
+					case *ast.ForStmt, *ast.RangeStmt, *ast.SwitchStmt, *ast.TypeSwitchStmt, *ast.SelectStmt:
+						if k != n {
+							return false // an unlabelled break in there leaves that statement
+						}
+					case *ast.BranchStmt:
+						if y.Tok == token.BREAK && y.Label == nil {
+							breaks = append(breaks, y.Pos())
+						}
+					}
+					return true
+				})
+			}
+			walk(body, false)
+			if len(breaks) == 0 {
+				return true
+			}
+			// commits
+			var commits []token.Pos
+			ast.Inspect(body, func(k ast.Node) bool {
+				as, ok := k.(*ast.AssignStmt)
+				if !ok || len(as.Lhs) != 1 || len(as.Rhs) != 1 {
+					return true
+				}
+				call, ok := core.Unparen(as.Rhs[0]).(*ast.CallExpr)
+				if !ok {
+					return true
+				}
+				if f, ok := call.Fun.(*ast.Ident); !ok || f.Name != "append" || len(call.Args) < 2 {
+					return true
+				}
+				if types.ExprString(as.Lhs[0]) != types.ExprString(call.Args[0]) {
+					return true
+				}
+				if id := core.RootIdent(as.Lhs[0]); id != nil {
+					if o := core.ObjOf(info, id); o != nil && (o.Pos() < loop.Pos() || o.Pos() >= loop.End()) {
+						commits = append(commits, as.Pos())
+					}
+				}
+				return true
+			})
+			if len(commits) == 0 {
+				return true
+			}
+			lastCommit := commits[len(commits)-1]
+			// a break before the (last) commit
+			var brk token.Pos
+			for _, b := range breaks {
+				if b < lastCommit && (brk == token.NoPos || b > brk) {
+					brk = b
+				}
+			}
+			if brk == token.NoPos {
+				return true
+			}
+			n++
+			ord++
+			key := fmt.Sprintf("%s|loop #%d that can drop its candidate: no per-candidate value is read after the loop", fname, ord)
+			// variables assigned before that break
+			cand := map[types.Object]token.Pos{}
+			ast.Inspect(body, func(k ast.Node) bool {
+				if _, isLit := k.(*ast.FuncLit); isLit {
+					return false
+				}
+				as, ok := k.(*ast.AssignStmt)
+				if !ok || as.Pos() > brk {
+					return true
+				}
+				for _, l := range as.Lhs {
+					if id, ok := l.(*ast.Ident); ok {
+						if o := core.ObjOf(info, id); outside(o) {
+							cand[o] = as.Pos()
+						}
+					}
+				}
+				return true
+			})
+			bad := ""
+			var badPos, badAssign token.Pos
+			ast.Inspect(fd.Body, func(k ast.Node) bool {
+				id, ok := k.(*ast.Ident)
+				if !ok || id.Pos() < loop.End() {
+					return true
+				}
+				o := core.ObjOf(info, id)
+				if _, isCand := cand[o]; !isCand || bad != "" {
+					return true
+				}
+				// a plain re-definition after the loop is not a read
+				isDef := false
+				ast.Inspect(fd.Body, func(q ast.Node) bool {
+					if as, ok := q.(*ast.AssignStmt); ok && as.Tok == token.ASSIGN {
+						for _, l := range as.Lhs {
+							if l == ast.Expr(id) {
+								isDef = true
+							}
+						}
+					}
+					return true
+				})
+				if isDef {
+					delete(cand, o) // redefined before any read
+					return true
+				}
+				bad, badPos, badAssign = id.Name, id.Pos(), cand[o]
+				return true
+			})
+			if bad != "" {
+				r.Fail("E11.stale-after-break", key, c.Pos(badPos), fmt.Sprintf("`%s` is assigned in the loop at %s before the `break` at %s that drops the candidate, and is read here after the loop: when the loop ended through that break it describes the dropped element, not the last one committed at %s", bad, c.Pos(badAssign), c.Pos(brk), c.Pos(lastCommit)))
+			} else {
+				r.OK("E11.stale-after-break", key, c.Pos(loop.Pos()), "")
+			}
+			return true
+		})
+	}
+	r.Count("E11.droppable-candidate-loops", n)
+	r.Floor("E11.droppable-candidate-loops", 1)
+}
+
+// E11StrokeToleranceView: a stroke that is computed before the view is applied uses a tolerance that accounts for the view.
+func E11StrokeToleranceView(c *core.Ctx, r *core.Report) {
+	r.Rule("E11.stroke-tolerance-view", "rasterizer.RenderPath: the rasterizer promises a deviation of a fraction of a pixel. Where the outline of a stroke is computed (Path.Stroke with a tolerance) and the result is transformed by the view matrix afterwards, the deviation is multiplied by the view's scale, so the tolerance handed to Stroke must depend on that matrix (its definition, through local assignments, mentions the matrix parameter). A tolerance of PixelTolerance/DPMM alone puts the outline of a curve stroked under Scale(80,80) up to 10 pixels off")
+	p := c.MustPkg("renderers/rasterizer")
+	info := p.TypesInfo
+	fd := core.MustFuncDecl(p, "Rasterizer.RenderPath")
+	r.Func("rasterizer.Rasterizer.RenderPath")
+	// the matrix parameter: the one of type canvas.Matrix
+	var mObj types.Object
+	for _, f := range fd.Type.Params.List {
+		for _, nm := range f.Names {
+			if o := info.Defs[nm]; o != nil && strings.HasSuffix(o.Type().String(), "canvas.Matrix") {
+				mObj = o
+			}
+		}
+	}
+	if mObj == nil {
+		r.Fail("E11.stroke-tolerance-view", "rasterizer.Rasterizer.RenderPath|matrix parameter", c.Pos(fd.Pos()), "no parameter of type canvas.Matrix")
+		return
+	}
+	// depends(e): e mentions mObj directly or through locals' assignments (transitively)
+	var depends func(e ast.Node, seen map[types.Object]bool) bool
+	depends = func(e ast.Node, seen map[types.Object]bool) bool {
+		found := false
+		ast.Inspect(e, func(k ast.Node) bool {
+			id, ok := k.(*ast.Ident)
+			if !ok || found {
+				return true
+			}
+			o := core.ObjOf(info, id)
+			if o == mObj {
+				found = true
+				return true
+			}
+			if v, ok := o.(*types.Var); ok && !v.IsField() && !seen[o] && o.Pos() > fd.Pos() && o.Pos() < fd.End() {
+				seen[o] = true
+				ast.Inspect(fd.Body, func(q ast.Node) bool {
+					as, ok := q.(*ast.AssignStmt)
+					if !ok {
+						return true
+					}
+					for i, l := range as.Lhs {
+						if lid, ok := l.(*ast.Ident); ok && core.ObjOf(info, lid) == o {
+							if len(as.Lhs) == len(as.Rhs) {
+								if depends(as.Rhs[i], seen) {
+									found = true
+								}
+							} else if len(as.Rhs) == 1 && depends(as.Rhs[0], seen) {
+								found = true
+							}
+							// a compound assignment under a condition on m also counts through its RHS only
+						}
+					}
+					return true
+				})
+				// `if init; cond { v op= … }`: values defined in an if-init that mentions m
+				ast.Inspect(fd.Body, func(q ast.Node) bool {
+					is, ok := q.(*ast.IfStmt)
+					if !ok || is.Init == nil {
+						return true
+					}
+					assignsV := false
+					ast.Inspect(is.Body, func(z ast.Node) bool {
+						if as, ok := z.(*ast.AssignStmt); ok {
+							for _, l := range as.Lhs {
+								if lid, ok := l.(*ast.Ident); ok && core.ObjOf(info, lid) == o {
+									assignsV = true
+								}
+							}
+						}
+						return true
+					})
+					if assignsV {
+						ast.Inspect(is.Init, func(z ast.Node) bool {
+							if zid, ok := z.(*ast.Ident); ok && core.ObjOf(info, zid) == mObj {
+								found = true
+							}
+							return true
+						})
+					}
+					return true
+				})
+			}
+			return true
+		})
+		return found
+	}
+	n := 0
+	ast.Inspect(fd.Body, func(m ast.Node) bool {
+		call, ok := m.(*ast.CallExpr)
+		if !ok {
+			return true
+		}
+		se, ok := call.Fun.(*ast.SelectorExpr)
+		if !ok || se.Sel.Name != "Stroke" || len(call.Args) != 4 {
+			return true
+		}
+		// transformed by the matrix afterwards?
+		transformedAfter := false
+		ast.Inspect(fd.Body, func(k ast.Node) bool {
+			c2, ok := k.(*ast.CallExpr)
+			if !ok || c2.Pos() < call.End() {
+				return true
+			}
+			if s2, ok := c2.Fun.(*ast.SelectorExpr); ok && s2.Sel.Name == "Transform" && len(c2.Args) == 1 {
+				if id, ok := core.Unparen(c2.Args[0]).(*ast.Ident); ok && core.ObjOf(info, id) == mObj {
+					transformedAfter = true
+				}
+			}
+			return true
+		})
+		if !transformedAfter {
+			return true
+		}
+		n++
+		key := fmt.Sprintf("rasterizer.Rasterizer.RenderPath|Stroke call #%d followed by Transform(m): the tolerance depends on m", n)
+		if depends(call.Args[3], map[types.Object]bool{}) {
+			r.OK("E11.stroke-tolerance-view", key, c.Pos(call.Pos()), "")
+		} else {
+			r.Fail("E11.stroke-tolerance-view", key, c.Pos(call.Pos()), fmt.Sprintf("the stroke outline is computed with tolerance `%s`, which does not depend on the view matrix `%s`, and is transformed by it afterwards: its deviation in pixels grows with the view's scale", c.Src(call.Args[3]), mObj.Name()))
+		}
+		return true
+	})
+	r.Count("E11.stroke-then-transform", n)
+	r.Floor("E11.stroke-then-transform", 1)
+}
+
+// E11GramConsistency: the orthogonality test of IsRigid/IsSimilarity uses the same two vectors as its length tests.
+func E11GramConsistency(c *core.Ctx, r *core.Report) {
+	r.Rule("E11.gram-consistency", "Matrix.IsRigid and Matrix.IsSimilarity (which every vector back-end asks whether a stroke may be written natively under the view) test a 2×2 linear part through three numbers: the squared lengths of two vectors and their dot product. The three are entries of one Gram matrix: with a = u·u and b = v·v read off as sums of two squares, the third is u·v — the sum of the products of corresponding components of those same u and v (the rows, or the columns, not one of each). Equal row lengths together with orthogonal columns is not a similarity: Rotate(45°)·Scale(3,1) passes that test and the back-ends then write a uniform stroke width where the rasterizer paints an anisotropic outline")
+	p := c.MustPkg("")
+	info := p.TypesInfo
+	n := 0
+	for _, fname := range []string{"Matrix.IsRigid", "Matrix.IsSimilarity"} {
+		fd := core.MustFuncDecl(p, fname)
+		r.Func("canvas." + fname)
+		// locals defined as sums of two products
+		type prod struct{ x, y string }
+		sums := map[types.Object][2]prod{}
+		var order []types.Object
+		ast.Inspect(fd.Body, func(m ast.Node) bool {
+			as, ok := m.(*ast.AssignStmt)
+			if !ok || as.Tok != token.DEFINE || len(as.Lhs) != 1 || len(as.Rhs) != 1 {
+				return true
+			}
+			be, ok := core.Unparen(as.Rhs[0]).(*ast.BinaryExpr)
+			if !ok || be.Op != token.ADD {
+				return true
+			}
+			var ps [2]prod
+			for i, t := range []ast.Expr{be.X, be.Y} {
+				m2, ok := core.Unparen(t).(*ast.BinaryExpr)
+				if !ok || m2.Op != token.MUL {
+					return true
+				}
+				ps[i] = prod{squash(types.ExprString(m2.X)), squash(types.ExprString(m2.Y))}
+			}
+			o := info.Defs[as.Lhs[0].(*ast.Ident)]
+			sums[o] = ps
+			order = append(order, o)
+			return true
+		})
+		n++
+		key := "canvas." + fname + "|squared lengths and dot product belong to the same two vectors"
+		// find the two squared lengths and the mixed one
+		var sq []types.Object
+		var mixed []types.Object
+		for _, o := range order {
+			ps := sums[o]
+			if ps[0].x == ps[0].y && ps[1].x == ps[1].y {
+				sq = append(sq, o)
+			} else {
+				mixed = append(mixed, o)
+			}
+		}
+		if len(sq) != 2 || len(mixed) != 1 {
+			r.Fail("E11.gram-consistency", key, c.Pos(fd.Pos()), fmt.Sprintf("expected two sums of squares and one sum of mixed products, found %d and %d", len(sq), len(mixed)))
+			continue
+		}
+		u := [2]string{sums[sq[0]][0].x, sums[sq[0]][1].x}
+		v := [2]string{sums[sq[1]][0].x, sums[sq[1]][1].x}
+		mp := sums[mixed[0]]
+		pair := func(a, b string) string {
+			if a > b {
+				a, b = b, a
+			}
+			return a + "*" + b
+		}
+		want := map[string]bool{pair(u[0], v[0]): true, pair(u[1], v[1]): true}
+		got := map[string]bool{pair(mp[0].x, mp[0].y): true, pair(mp[1].x, mp[1].y): true}
+		same := len(want) == len(got)
+		for k := range want {
+			if !got[k] {
+				same = false
+			}
+		}
+		if same {
+			r.OK("E11.gram-consistency", key, c.Pos(fd.Pos()), fmt.Sprintf("u=(%s,%s) v=(%s,%s)", u[0], u[1], v[0], v[1]))
+		} else {
+			r.Fail("E11.gram-consistency", key, c.Pos(mixed[0].Pos()), fmt.Sprintf("the lengths are those of u=(%s, %s) and v=(%s, %s), but `%s` is %s*%s + %s*%s, which is not u·v: the function tests the lengths of one pair of vectors and the angle of another", u[0], u[1], v[0], v[1], mixed[0].Name(), mp[0].x, mp[0].y, mp[1].x, mp[1].y))
+		}
+	}
+	r.Count("E11.gram-tests", n)
+	r.Floor("E11.gram-tests", 2)
+}
